@@ -1,7 +1,7 @@
 (* Props/C19.v -- real_to_complex is the exact analytic-baseband conversion. *)
 From Coq Require Import ZArith Reals.
 From Coquelicot Require Import Complex.
-From PB Require Import Lib.Dft Lib.DftC Model.Hilbert Proofs.HilbertProofs Proofs.HilbertC Proofs.HilbertTone.
+From PB Require Import Lib.Dft Lib.DftC Model.Hilbert Proofs.HilbertProofs Proofs.HilbertC Proofs.HilbertTone Gen.GenHilbert Proofs.HilbertGen.
 
 (* the Hilbert weights, as the code assigns them, pair up to 2 for EVERY N >= 1 (DC / Nyquist, both parities) *)
 Theorem C19_weights : forall N k, (1 <= N)%Z -> (0 <= k < N)%Z -> (h N k + h N ((N - k) mod N) = 2)%Z.
@@ -34,9 +34,23 @@ Theorem C19_tone : forall (n : nat), (0 < n)%nat -> forall (w m : nat), (0 < w)%
 Proof. exact rtc_real_tone. Qed.
 (* axis independence and scipy.fft = this DFT are checked against the code by the correspondence run. *)
 
+(* tie to the source by translation (T8): the weights as the sequence of array writes of utils.real_to_complex (zeros; h[0] = 1;
+   h[1 : N // 2] = 2 through CPython slice normalisation; h[N // 2] = 2 if N % 2 else 1 when N > 1 - the last write wins), the output
+   length from the decimation slice, the dtype rule, the decimation step and the direction of the mixing ramp are GENERATED from the
+   source on this run; the closed forms of the model are proved equal to them *)
+Theorem C19_generated_weights : forall N k, (0 <= k < N)%Z -> h N k = gen_h N k.
+Proof. exact h_generated. Qed.
+Theorem C19_generated_len : forall N, (0 <= N)%Z -> out_len N = gen_out_len N.
+Proof. exact out_len_generated. Qed.
+Theorem C19_generated_rest : (forall a b, out_dtype a b = gen_out_dtype a b) /\ gen_dec_step = 2%Z /\
+  (forall j : nat, (- Z.of_nat j = gen_mix_quarter_turns * Z.of_nat j)%Z).
+Proof. exact (conj out_dtype_generated (conj dec_step_generated mix_generated)). Qed.
+
 Print Assumptions C19_weights.
 Print Assumptions C19_len.
 Print Assumptions C19_real.
 Print Assumptions C19_mix.
 Print Assumptions C19_tone.
 Print Assumptions C19_linear.
+Print Assumptions C19_generated_weights.
+Print Assumptions C19_generated_len.
